@@ -18,9 +18,10 @@ ASSUMPTIONS = ["failure-free runs", "goroutine scheduling is sampled, not enumer
 
 def config(r):
     if r.chance(1, 4):
-        return "local CH%d P%d CA%d SB%d" % (r.choice([1, 2, 8, 128]), r.rng(1, 8), r.choice([1, 4, 256]), r.choice([1, 4, 128]))
+        return "local CH%d P%d CA%d SB%d%s" % (r.choice([1, 2, 8, 128]), r.rng(1, 8), r.choice([1, 4, 256]), r.choice([1, 4, 128, 200]),
+                                             " MC" if r.chance(1, 3) else "")
     toks = ["bm", "M%d" % r.choice([1, 2, 4]), "P%d" % r.rng(1, 8), "L%d" % r.choice([30, 50, 95, 100]),
-            "CH%d" % r.choice([1, 2, 8, 128]), "CA%d" % r.choice([1, 4, 256]), "SB%d" % r.choice([1, 4, 128])]
+            "CH%d" % r.choice([1, 2, 8, 128]), "CA%d" % r.choice([1, 4, 256]), "SB%d" % r.choice([1, 4, 128, 200])]
     if r.chance(1, 2):
         toks.append("MC")
     if r.chance(1, 3):
@@ -56,7 +57,10 @@ def gen(r, tier):
     for i in range(n):
         p, sh, ordr, isscan = progen.gen_program(r, 7, e2e=True, big=(i % 9 == 0))
         for j in range(k):
-            yield "%s ;; %s" % (config(r), repragma(r, p) if j % 2 else p)
+            q = repragma(r, p) if j % 2 else p
+            if j == 3:
+                q = "EXCLUSIVE ; " + q      # run through an exclusive Func: the invocation gets machines of its own
+            yield "%s ;; %s" % (config(r), q)
 
 
 def nontrivial(case, obs):
